@@ -78,6 +78,43 @@ func Lists(thorough bool, variant string) []gen.ListSpec {
 				out = append(out, s)
 			}
 		})
+	case "collisions":
+		// identifiers that are decimal-suffix extensions of one another with edge type numbers whose decimal spellings
+		// extend one another ("a1"+"0" = "a"+"10", "a1"+"2" = "a"+"12", "a"+"1" + ... ): any index keyed by an
+		// undelimited concatenation of identifier and type merges them
+		idsC := []string{"a", "a1", "b"}
+		typesC := []sbom.Edge_Type{0, 1, 2, 10, 11, 12}
+		var objs []gen.EdgeSpec
+		for _, f := range []string{"a", "a1"} {
+			for _, t := range typesC {
+				objs = append(objs, gen.EdgeSpec{From: f, Type: t, To: []string{"b"}})
+			}
+		}
+		gen.EdgeLists(objs, 2, func(el []gen.EdgeSpec) {
+			out = append(out, gen.ListSpec{Nodes: idsC, Edges: el, Roots: []string{"a"}})
+		})
+	case "wide":
+		// size classes: a star with 40 leaves, the same star with the leaves in another order and split over two edge
+		// objects, a chain of 40 nodes (thresholds and capacity effects are invisible to 3-node lists)
+		var leaves, rev []string
+		for i := 0; i < 40; i++ {
+			leaves = append(leaves, fmt.Sprintf("l%02d", i))
+		}
+		for i := len(leaves) - 1; i >= 0; i-- {
+			rev = append(rev, leaves[i])
+		}
+		all := append([]string{"hub"}, leaves...)
+		out = append(out,
+			gen.ListSpec{Nodes: all, Edges: []gen.EdgeSpec{{From: "hub", Type: sbom.Edge_contains, To: leaves}}, Roots: []string{"hub"}},
+			gen.ListSpec{Nodes: all, Edges: []gen.EdgeSpec{{From: "hub", Type: sbom.Edge_contains, To: rev[:25]}, {From: "hub", Type: sbom.Edge_contains, To: rev[20:]}}, Roots: []string{"hub"}},
+			gen.ListSpec{Nodes: all[:21], Edges: []gen.EdgeSpec{{From: "hub", Type: sbom.Edge_contains, To: leaves[:20]}, {From: "hub", Type: sbom.Edge_dependsOn, To: leaves[:20]}}, Roots: []string{"hub", "l00"}},
+			gen.ListSpec{},
+		)
+		var chain []gen.EdgeSpec
+		for i := 0; i+1 < len(leaves); i++ {
+			chain = append(chain, gen.EdgeSpec{From: leaves[i], Type: sbom.Edge_dependsOn, To: []string{leaves[i+1]}})
+		}
+		out = append(out, gen.ListSpec{Nodes: leaves, Edges: chain, Roots: []string{"l00"}})
 	case "triples":
 		ab := []string{"a", "b"}
 		gen.SmallLists(ab, ab, t1, ab, 2, 1, ab, func(s gen.ListSpec) { out = append(out, s) })
@@ -103,6 +140,20 @@ func Run(c *engine.Ctx) {
 			c.Case(func() any { return pairDesc{A: A, B: B} }, func(t *engine.T) *engine.Violation {
 				return pairCase(t, A, B, empty)
 			})
+		}
+	}
+
+	for _, fam := range []string{"collisions", "wide"} {
+		F := Lists(c.Thorough(), fam)
+		c.Group(fam)
+		c.Bound(fam, fmt.Sprintf("all %d x %d ordered pairs of the %s family", len(F), len(F), fam))
+		for i := range F {
+			for j := range F {
+				A, B := F[i], F[j]
+				c.Case(func() any { return pairDesc{A: A, B: B} }, func(t *engine.T) *engine.Violation {
+					return pairCase(t, A, B, empty)
+				})
+			}
 		}
 	}
 
